@@ -187,4 +187,3 @@ spec fn build0_err(mid: State, fin: State, e: Xerr) -> bool {
     }
 }
 pub uninterp spec fn build1_post(s: State) -> State;
-pub uninterp spec fn token_location_spec(sources: Seq<(Xstr, Xstr)>, tok: Xsubstr) -> Option<TokenLocation>;
